@@ -10,6 +10,9 @@ import (
 	"testing"
 
 	"github.com/attestantio/dirk/rules"
+	"github.com/attestantio/dirk/services/accountmanager"
+	"github.com/attestantio/dirk/services/lister"
+	"github.com/attestantio/dirk/services/walletmanager"
 	standardrules "github.com/attestantio/dirk/rules/standard"
 	standardaccountmanager "github.com/attestantio/dirk/services/accountmanager/standard"
 	accountmanagerhandler "github.com/attestantio/dirk/services/api/grpc/handlers/accountmanager"
@@ -76,6 +79,9 @@ type Instance struct {
 	AcctH     *accountmanagerhandler.Handler
 	WalletH   *walletmanagerhandler.Handler
 	Process   process.Service
+	Lister    lister.Service
+	AcctMgr   accountmanager.Service
+	WalletMgr walletmanager.Service
 	inStoreOp atomic.Int32
 	Dead      bool
 	Closed    bool
@@ -161,6 +167,7 @@ func NewInstance(s *Sched, name string, cfg InstCfg) (*Instance, error) {
 	if err != nil {
 		return fail(err)
 	}
+	inst.Lister = listerSvc
 	if cfg.MakeProcess != nil {
 		p, err := cfg.MakeProcess(inst)
 		if err != nil {
@@ -182,6 +189,7 @@ func NewInstance(s *Sched, name string, cfg InstCfg) (*Instance, error) {
 		if err != nil {
 			return fail(err)
 		}
+		inst.AcctMgr, inst.WalletMgr = am, wm
 		if inst.AcctH, err = accountmanagerhandler.New(ctx, accountmanagerhandler.WithAccountManager(am), accountmanagerhandler.WithProcess(inst.Process)); err != nil {
 			return fail(err)
 		}
